@@ -113,8 +113,9 @@ def pool_mods(tier, per=230):
 
 
 def slicetuple_mods():
-    """Slices whose bounds are tuple constants, one tiny module each (kept apart from the packed modules)."""
-    bodies = ['_I[(0,):]', '_I[:(0.0,)]', '_I[::()]', '_I[(0,):(0.0,)]', '_I[(0,):(0.0,):()]', '_I[(-0.0,):(0.0,):(0,)]']
+    """Slices whose bounds are tuple or complex constants, one tiny module each (kept apart from the packed modules)."""
+    bodies = ['_I[(0,):]', '_I[:(0.0,)]', '_I[::()]', '_I[(0,):(0.0,)]', '_I[(0,):(0.0,):()]', '_I[(-0.0,):(0.0,):(0,)]',
+              '_I[0j:]', '_I[:1.5j]', '_I[1j:2j:3j]']      # complex bounds: neither C integers nor objects either
     return [e2.Mod('c09slt_%d' % i, POOL_PRELUDE, [e2.Part('def s():\n    return %s\n' % b, [e2.Func('s', 'pool/St', 'none')])],
                    {'none': [()]}, ext='.py') for i, b in enumerate(bodies)]
 
